@@ -30,17 +30,26 @@ def loop_desc(lp):
 
 # ---------------------------------------------------------------- C19-R5
 def c19_step_nesting(F, rep):
+    c19_step_nesting_items(F.syn("mech_interpreter.lib"), rep)
+
+
+def c19_step_nesting_items(items, rep):
     rep.rule("C19-R5", "Interpreter::step: every solve() of a whole-plan pass sits in the plan traversal, and the plan traversal sits inside the step counter loop "
                        "(n requested steps = n passes over the plan in plan order, in every branch)")
-    its = [it for it in F.syn("mech_interpreter.lib") if it["k"] == "method" and it["name"] == "step" and "Interpreter" in str(it["self"])]
+    its = [it for it in items if it["k"] == "method" and it["name"] == "step" and "Interpreter" in str(it["self"])]
     if not rep.check(len(its) == 1, "C19-R5", "anchor:step", "Interpreter::step not found"):
         return
-    sites = loop_chain(its[0]["body"], lambda n: n[0] == "mcall" and n[2] == "solve")
+    # loops are roles: the counter is a range whose bound is the step-count PARAMETER (through named locals), the plan traversal is a loop over something read from
+    # the field `plan`; both are followed through private helpers and iterator adaptors (lib/absint.py)
+    from rules.c19 import StepRun
+    from lib import absint as A
+    sr = StepRun(items, its[0])
     n = 0
-    for node, chain in sites:
-        descs = [loop_desc(l) for l in chain]
-        counters = [i for i, d in enumerate(descs) if re.search(r"\.\.\s*\(?step_count|0\s*\.\.", d)]
-        plans = [i for i, d in enumerate(descs) if re.search(r"plan", d)]
+    for e in sr.solves:
+        chain = list(e["loops"])
+        descs = [A.show(sr.I.loops[l]["src"]) for l in chain]
+        plans = [i for i, l in enumerate(chain) if sr.is_plan_loop(l)]
+        counters = [i for i, l in enumerate(chain) if l in sr.counters or (i not in plans and sr.I.loops[l]["src"][0] == "range" and sr.I.loops[l]["src"][1] == ("int", 0))]
         if not counters or not plans:
             continue                # single-function stepping (`step_id != 0`) repeats one function, it is not a pass over the plan
         n += 1
@@ -392,9 +401,10 @@ def c19_hash_order_sensitive_use(F, rep):
                 continue
             n_taint += len(tainted)
             sorted_vars = {render(m[1]) for m in find(it["body"], "mcall") if m[2] in ("sort", "sort_by", "sort_by_key", "sort_unstable", "sort_unstable_by", "sort_unstable_by_key")}
-            for v, field in sorted(tainted.items()):
+            # keys carry the ordinal of the sequence in the function (order of first appearance), not the spelling of the local
+            for k_, (v, field) in enumerate(tainted.items()):
                 if v in sorted_vars:
-                    rep.ok("C19-R6", "%s:%s:sorted" % (it["name"], v))
+                    rep.ok("C19-R6", "%s:#%d:sorted" % (it["name"], k_))
                     continue
                 uses = []
                 for m in find(it["body"], "mcall"):
@@ -407,7 +417,7 @@ def c19_hash_order_sensitive_use(F, rep):
                 for ix in find(it["body"], "index"):
                     if is_node(ix[1]) and ix[1][0] == "path" and ix[1][1] == v and is_node(ix[2]) and ix[2][0] == "int":
                         uses.append("[%s]" % ix[2][1])
-                key = "%s:%s<-%s" % (it["name"], v, field)
+                key = "%s:#%d<-%s" % (it["name"], k_, field)
                 rep.check(not uses, "C19-R6", key if not uses else key + ":" + ",".join(sorted(set(uses))),
                           "%s: `%s` is filled while iterating the hash-ordered `%s` and then used position-wise (%s): which element that is differs between interpreter instances, so the same program computes different values" % (
                               it["name"], v, field, sorted(set(uses))), "%s (%s)" % (it["name"], crate), sample={"fn": it["name"], "sequence": v, "from": field})
